@@ -482,10 +482,12 @@ class Inliner:
             # hooks are modelled interprocedurally (sa/hooks.py); only pure module-level expression helpers are substituted
             self.only_module_level = True
             try:
-                return self._expr_helpers(r, fn)
+                # purely syntactic normal forms are safe for hook classes too (no helper is moved)
+                return _filter_loops(fn) + _reduce_and_extend_loops(fn) + self._expr_helpers(r, fn)
             finally:
                 self.only_module_level = False
         n = _filter_loops(fn)
+        n += _reduce_and_extend_loops(fn)
         n += _callable_choice(fn)
         n += self._block(r, fn, fn.node.body)
         n += self._expr_helpers(r, fn)
@@ -603,7 +605,9 @@ class Inliner:
             comp = s.value
             g = comp.generators[0]
             single_target = isinstance(s, ast.Return) or (len(s.targets) == 1 and isinstance(s.targets[0], ast.Name))
-            if single_target and not g.is_async and self._first_hoistable(r, comp.elt) is not None and not any(self._first_hoistable(r, c) for c in g.ifs):
+            # ...and `[x for x in xs if helper(x)]`: the nested `if`s of the loop form make the helper call hoistable under the earlier conditions
+            if single_target and not g.is_async and ((self._first_hoistable(r, comp.elt) is not None and not any(self._first_hoistable(r, c) for c in g.ifs))
+                                                     or any(self._first_hoistable(r, c) for c in g.ifs)):
                 if isinstance(s, ast.Return):
                     self.counter += 1
                     name = f"collected__h{self.counter}"
@@ -779,6 +783,90 @@ def _filter_loops(fn: FuncInfo) -> int:
         st.iter = xs
         st.body = [guard]
         n += 1
+    return n
+
+
+def _stmt_lists(node):
+    """every list of statements inside a function (its own nested definitions excluded)"""
+    out = []
+
+    def rec(stmts):
+        out.append(stmts)
+        for st in stmts:
+            if isinstance(st, (ast.FunctionDef, ast.AsyncFunctionDef, ast.ClassDef)):
+                continue
+            for field in ("body", "orelse", "finalbody"):
+                sub = getattr(st, field, None)
+                if isinstance(sub, list) and sub and isinstance(sub[0], ast.stmt):
+                    rec(sub)
+            if isinstance(st, ast.Try):
+                for h in st.handlers:
+                    rec(h.body)
+            if isinstance(st, ast.Match):
+                for c in st.cases:
+                    rec(c.body)
+
+    rec(node.body)
+    return out
+
+
+def _reduce_and_extend_loops(fn: FuncInfo) -> int:
+    """Two spellings of a loop are written out as the loop:
+      `t = reduce(lambda acc, x: E, XS, INIT)`   ==>  `t = INIT` / `for x in XS: t = E[acc := t]`
+      `L.extend(E for x in XS if C)`             ==>  `for x in XS: if C: L.append(E)`
+    so that a call made per element (`transformer.transform(...)`, `make_new_arg(...)`) and the conditions it is made under are seen
+    by the call graph and the flow analysis like in the hand-written loop."""
+    n = 0
+    for stmts in _stmt_lists(fn.node):
+        i = 0
+        while i < len(stmts):
+            st = stmts[i]
+            repl = None
+            val = st.value if isinstance(st, (ast.Assign, ast.AnnAssign, ast.Return)) else None
+            if isinstance(val, ast.Call) and not val.keywords and len(val.args) == 3 and isinstance(val.args[0], ast.Lambda) \
+                    and (isinstance(val.func, ast.Name) and val.func.id == "reduce" or isinstance(val.func, ast.Attribute) and val.func.attr == "reduce"):
+                lam, xs, init = val.args
+                la = lam.args
+                if len(la.args) == 2 and not (la.vararg or la.kwarg or la.kwonlyargs or la.defaults or la.posonlyargs):
+                    if isinstance(st, ast.Assign) and len(st.targets) == 1 and isinstance(st.targets[0], ast.Name):
+                        tname = st.targets[0].id
+                    elif isinstance(st, ast.AnnAssign) and isinstance(st.target, ast.Name):
+                        tname = st.target.id
+                    elif isinstance(st, ast.Return):
+                        tname = f"reduced__n{st.lineno}"
+                    else:
+                        tname = None
+                    if tname is not None and tname not in {x.id for x in ast.walk(lam.body) if isinstance(x, ast.Name)} - {la.args[0].arg}:
+                        acc, elem = la.args[0].arg, la.args[1].arg
+                        body = _Subst({acc: ast.Name(id=tname, ctx=ast.Load())}, {}).visit(copy.deepcopy(lam.body))
+                        first = ast.Assign(targets=[ast.Name(id=tname, ctx=ast.Store())], value=init)
+                        step = ast.Assign(targets=[ast.Name(id=tname, ctx=ast.Store())], value=body)
+                        loop = ast.For(target=ast.Name(id=elem, ctx=ast.Store()), iter=xs, body=[step], orelse=[])
+                        repl = [first, loop] + ([ast.Return(value=ast.Name(id=tname, ctx=ast.Load()))] if isinstance(st, ast.Return) else [])
+            elif isinstance(st, ast.Expr) and isinstance(st.value, ast.Call) and isinstance(st.value.func, ast.Attribute) and st.value.func.attr == "extend" \
+                    and len(st.value.args) == 1 and not st.value.keywords and isinstance(st.value.args[0], (ast.GeneratorExp, ast.ListComp)) \
+                    and len(st.value.args[0].generators) == 1 and not st.value.args[0].generators[0].is_async:
+                comp = st.value.args[0]
+                g = comp.generators[0]
+                app = ast.Expr(value=ast.Call(func=ast.Attribute(value=st.value.func.value, attr="append", ctx=ast.Load()), args=[comp.elt], keywords=[]))
+                body: list[ast.stmt] = [app]
+                for c in reversed(g.ifs):
+                    body = [ast.If(test=c, body=body, orelse=[])]
+                tgt = copy.deepcopy(g.target)
+                _set_ctx(tgt, ast.Store())
+                repl = [ast.For(target=tgt, iter=g.iter, body=body, orelse=[])]
+            if repl is not None:
+                for r_ in repl:
+                    for x in ast.walk(r_):
+                        if not hasattr(x, "lineno") or getattr(x, "lineno", None) is None:
+                            ast.copy_location(x, st)
+                    ast.copy_location(r_, st)
+                    ast.fix_missing_locations(r_)
+                stmts[i:i + 1] = repl
+                n += 1
+                i += len(repl)
+                continue
+            i += 1
     return n
 
 
